@@ -7,8 +7,10 @@ from props import _prior as K
 ENV_BY_TIER = {"quick": {"NUMBA_DISABLE_JIT": "1"}, "thorough": {}}
 
 RULE = ("total sample counts n: every n in 2..24 (quick) / 2..60 (thorough) plus seeded random n up to 400 "
-        "(always one n >= 300; thorough adds n = 1000 oracle-only); for each n every k in 2..n, both prior "
-        "distributions (lognorm, gamma); a case is one (n, distribution) table; non-trivial when n >= 3 "
+        "(always one n >= 300), plus, oracle-only against the closed-form reference for ~18 values of k, one random n in "
+        "1100..1700 (quick) / n = 1500, 1023, 1024, 1025, 2048, 4097, 9999 and random n up to 6000 (thorough): the range "
+        "where products of n ratios and binomial-sized quantities leave the double range; for each n <= 400 every k in 2..n, both "
+        "prior distributions (lognorm, gamma); a case is one (n, distribution) table; non-trivial when n >= 3 "
         "(the recursion over ancestors is exercised)")
 ASSUME = ["the Python exact-rational reference (closed-form level weights) is tied to the Coq model by an exact "
           "comparison with the model evaluated on Q inside Coq for small n on every run, and to the Kingman jump "
@@ -80,6 +82,85 @@ def oracle_n(ctx, n, var, rows):
     return True
 
 
+def tol_var(n):
+    """measured on the unchanged tree: <= 5e-14 (n <= 400), 6.4e-13 (n = 1700); grows roughly like n^2"""
+    return TOL_VAR * max(1.0, (n / 1000.0) ** 2)
+
+
+def big_ks(rng, n):
+    ks = {2, 3, 4, 5, 10, 30, 100, n // 4, n // 2, n - 2, n - 1, n}
+    ks |= {rng.randint(2, n) for _ in range(4)} | {rng.randint(2, 60) for _ in range(2)}
+    return sorted(k for k in ks if 2 <= k <= n)
+
+
+def oracle_big(ctx, n, distrs):
+    """large n (where products of n ratios / binomial-sized quantities leave the double range): the
+    implementation against the closed-form reference (exact integer weights, 80-digit sums) for a
+    handful of k: variance, stored mean, and the moment-matched parameters.  Oracle only."""
+    import mpmath
+    ks = big_ks(ctx.rng, n)
+    try:
+        var = K.impl_ccv(n)
+        rows = {d: K.impl_rows(n, d) for d in distrs}
+    except Exception as e:
+        ctx.oracle_fail("exception", "building the prior for n=%d raised %s: %s" % (n, type(e).__name__, str(e)[:200]),
+                        {"n": n, "distr": None})
+        return False
+    ref = K.ref_moments_big(n, ks)
+    tol = tol_var(n)
+    if len(var) != n + 1:
+        ctx.oracle_fail("variance-shape", "conditional_coalescent_variance(%d) has %d entries" % (n, len(var)), {"n": n, "distr": None})
+        return False
+    with mpmath.workdps(50):
+        for k in ks:
+            rm, rv = ref[k]
+            x = var[k]
+            e = float(abs(mpmath.mpf(x) - rv) / rv) if math.isfinite(x) else float("inf")
+            if not e <= tol:
+                ctx.oracle_fail("variance", "conditional_coalescent_variance(%d)[%d] = %r, exact Kingman value %s (rel err %.3g)"
+                                % (n, k, x, mpmath.nstr(rv, 17), e), {"n": n, "k": k, "distr": None})
+                return False
+            for d in distrs:
+                rr = rows[d]
+                if len(rr) != n + 1:
+                    ctx.oracle_fail("rows-shape", "prior table for n=%d has %d rows" % (n, len(rr)), {"n": n, "distr": d})
+                    return False
+                alpha, beta, mean, v = rr[k]
+                if not all(math.isfinite(z) for z in (alpha, beta, mean, v)):
+                    ctx.oracle_fail("row-params", "%s prior row n=%d k=%d is %r" % (d, n, k, rr[k]), {"n": n, "k": k, "distr": d})
+                    return False
+                em = float(abs(mpmath.mpf(mean) - rm) / rm)
+                ev = float(abs(mpmath.mpf(v) - rv) / rv)
+                if not (em <= TOL_MEAN and ev <= tol):
+                    ctx.oracle_fail("row-moments", "%s prior row n=%d k=%d stores mean=%r var=%r, exact %s / %s"
+                                    % (d, n, k, mean, v, mpmath.nstr(rm, 17), mpmath.nstr(rv, 17)), {"n": n, "k": k, "distr": d})
+                    return False
+                a, b = mpmath.mpf(alpha), mpmath.mpf(beta)
+                if d == "gamma":
+                    pm, pv = a / b, a / (b * b)
+                else:
+                    pm = mpmath.exp(a + b / 2)
+                    pv = (mpmath.exp(b) - 1) * mpmath.exp(2 * a + b)
+                # the parameters must reproduce the EXACT moments, not only the stored ones
+                if not (abs(pm - rm) / rm <= TOL_MOM and abs(pv - rv) / rv <= max(TOL_MOM, 10 * tol)):
+                    ctx.oracle_fail("moment-match", "%s parameters (%r, %r) for n=%d k=%d have mean %s var %s, exact %s / %s"
+                                    % (d, alpha, beta, n, k, mpmath.nstr(pm, 17), mpmath.nstr(pv, 17),
+                                       mpmath.nstr(rm, 17), mpmath.nstr(rv, 17)), {"n": n, "k": k, "distr": d})
+                    return False
+    ctx.case({"n": n, "distr": "/".join(distrs), "ks": ks, "var[2]": var[2], "oracle-only": True},
+             nontrivial=True, kind="n>1000")
+    return True
+
+
+def pick_big(ctx):
+    rng = ctx.rng
+    if ctx.tier == "quick":
+        return [(rng.randint(1100, 1700), [rng.choice(["lognorm", "gamma"])])]
+    both = ["lognorm", "gamma"]
+    return [(n, both) for n in [1500, rng.randint(1100, 1700), rng.randint(1100, 1700), 1023, 1024, 1025, 2048,
+                                rng.randint(2000, 6000), 4097, 9999]]
+
+
 def kingman_reference_check(ctx, nmax):
     """Python re-enumeration of the Kingman chain against the closed-form reference (exact)
     and against the implementation"""
@@ -126,10 +207,10 @@ def run(ctx, model_ok=True):
         if not ok:
             break
     kingman_reference_check(ctx, ctx.n(9, 11))
-    if ctx.tier == "thorough" and not ctx.oracle_fails:
-        n = 1000
-        oracle_n(ctx, n, K.impl_ccv(n), None)
-        ctx.case({"n": n, "distr": None, "oracle-only": True}, kind="n=1000")
+    if not ctx.oracle_fails:
+        for n, distrs in pick_big(ctx):
+            if not oracle_big(ctx, n, distrs):
+                break
     # tau_var_mrca (used for the MRCA on the approximate path) = the exact k = n variance
     for n in ns:
         _m, exact = K.ref_moments(n) if n <= 60 else (None, None)
@@ -189,6 +270,9 @@ def run(ctx, model_ok=True):
 
 def search(ctx):
     """extended oracle-only search when a tie broke"""
+    for n in (1500, ctx.rng.randint(1100, 1700)):
+        if not oracle_big(ctx, n, ["lognorm", "gamma"]):
+            return
     for n in list(range(2, 80)) + [ctx.rng.randint(80, 400) for _ in range(6)]:
         try:
             rows = {d: K.impl_rows(n, d) for d in ("lognorm", "gamma")}
@@ -206,6 +290,9 @@ def replay(ctx, data):
     n = int(case["n"])
     before = len(ctx.oracle_fails)
     ds = [case["distr"]] if case.get("distr") else ["lognorm", "gamma"]
+    if n > 450:
+        oracle_big(ctx, n, ds)
+        return len(ctx.oracle_fails) == before
     try:
         oracle_n(ctx, n, K.impl_ccv(n), {d: K.impl_rows(n, d) for d in ds})
     except Exception:
